@@ -29,6 +29,14 @@
 //     again", "other object", "back to the first object whose contents changed meanwhile" all occur.
 //   Part E re-uses two objects (cache on/off) per configuration over all superpositions: activity image object overwritten in place, same
 //     pointer set again, set_up, compute == output of the fresh object for that activity.
+//   Request order (ord=1 worlds and part E): process_data() always walks the bins in the same order, but the numbers of the detectors (and with them
+//     the rows of the two line-integral caches) are assigned lazily in the order in which bins are first asked for.  The order worlds add 3 operations
+//     "scatter_estimate(bin) for every bin of a small fixed bin set in forward | reverse | interleaved order" (protected per-bin function, reached through
+//     the subclass PerBinSim as a derived class would) to the alphabet and start from an object that was set up and then asked through process_data()
+//     (phase 1) or per bin in reverse order (phase 2).  Oracle: every per-bin value == the bin of the freshly configured object's process_data() output
+//     for the current configuration (so independent of the order and of the history, cache on and off); requests are made only while the set-up is valid.
+//     Part E keeps two more objects (cache on/off) per configuration over all superpositions and asks them per bin in an order that changes from
+//     superposition to superposition, before and after process_data().
 #include "vmc.h"
 #include "stir_small.h"
 #include "stir/scatter/SingleScatterSimulation.h"
@@ -72,12 +80,13 @@ struct World
   int g = 0, zoom = 0, tv = 0; // geometry family, 0: explicit zoom factors 0.5/0.5, 1: STIR defaults (-1); template variant
   int S0 = 0;                  // scatter-point image of the initial configuration of part H (0: S1, -1: derived from D1)
   int ip = 0;                  // 1: in-place world: initial configuration uses caller-owned mutable image objects, alphabet includes the in-place updates
+  int ord = 0;                 // 1: request-order world: alphabet includes per-bin requests scatter_estimate(bin) over a fixed bin set in 3 orders
   int Dd = 8, R = 2;
   shared_ptr<ProjDataInfo> T[2];
   shared_ptr<ExamInfo> E[2];
   shared_ptr<Vox> A[2], Dn[3], S[2];
   float thr[2] = { 0.01F, 0.05F };
-  std::string name() const { return "g=" + vmc::str(g) + ";zoom=" + vmc::str(zoom) + ";tv=" + vmc::str(tv) + ";s0=" + vmc::str(S0) + (ip ? ";ip=1" : ""); }
+  std::string name() const { return "g=" + vmc::str(g) + ";zoom=" + vmc::str(zoom) + ";tv=" + vmc::str(tv) + ";s0=" + vmc::str(S0) + (ip ? ";ip=1" : "") + (ord ? ";ord=1" : ""); }
 };
 
 static shared_ptr<Vox> grid(int nz, int half, float vz, float vxy)
@@ -153,11 +162,33 @@ static World make_world(int g, int zoom, int tv)
   return w;
 }
 
+// what a derived class sees: the protected per-bin function
+class PerBinSim : public SingleScatterSimulation
+{
+public:
+  double estimate_for_bin(const Bin& bin) { return this->scatter_estimate(bin); }
+};
+// positions (in read order of the bins of the template) of the small bin set that is asked per bin, in the order of asking
+// order 0: forward, 1: reverse, 2: interleaved (first, last, second, last but one, ...)
+static std::vector<size_t> requested_bins(size_t nbins, int order)
+{
+  std::vector<size_t> K;
+  if (nbins == 0) return K;
+  const size_t stride = std::max<size_t>(1, nbins / 10) | 1;
+  for (size_t i = stride / 2; i < nbins; i += stride) K.push_back(i);
+  std::vector<size_t> r;
+  if (order == 0) r = K;
+  else if (order == 1) r.assign(K.rbegin(), K.rend());
+  else for (size_t lo = 0, hi = K.size(); lo < hi;) { r.push_back(K[lo++]); if (lo < hi) r.push_back(K[--hi]); }
+  return r;
+}
+static const char* const ORDER_NAME[3] = { "forward", "reverse", "interleaved" };
+
 static std::unique_ptr<SingleScatterSimulation> make_sim(const World& w, const Cfg& c, shared_ptr<const Vox> act = shared_ptr<const Vox>(),
                                                          shared_ptr<const Vox> dens = shared_ptr<const Vox>(), shared_ptr<const Vox> scat = shared_ptr<const Vox>())
 {
   // order of a parameter file: scalars first, then template, exam info, images
-  std::unique_ptr<SingleScatterSimulation> s(new SingleScatterSimulation());
+  std::unique_ptr<SingleScatterSimulation> s(new PerBinSim());
   s->set_randomly_place_scatter_points(false);
   s->set_attenuation_threshold(w.thr[c.thr]);
   s->set_use_cache(c.cache != 0);
@@ -290,17 +321,20 @@ struct Fresh
 };
 
 // ------------------------------------------------------------------------------------------------ part H
-static const char* const OPNAME[22] = { "set_activity_image_sptr(A1)", "set_activity_image_sptr(A2)", "set_density_image_sptr(D1)", "set_density_image_sptr(D2)",
+static const char* const OPNAME[25] = { "set_activity_image_sptr(A1)", "set_activity_image_sptr(A2)", "set_density_image_sptr(D1)", "set_density_image_sptr(D2)",
                                         "set_density_image_for_scatter_points_sptr(S1)", "set_density_image_for_scatter_points_sptr(S2)",
                                         "set_template_proj_data_info(T1)", "set_template_proj_data_info(T2)", "set_exam_info(E1)", "set_exam_info(E2)",
                                         "set_attenuation_threshold(t1)", "set_attenuation_threshold(t2)", "set_use_cache(0)", "set_use_cache(1)", "set_up", "compute",
                                         // in-place worlds only: overwrite the voxel values of the caller's object with those of Xk, call the setter with that same object
                                         "update_in_place_and_set_activity_image_sptr(A1)", "update_in_place_and_set_activity_image_sptr(A2)",
                                         "update_in_place_and_set_density_image_sptr(D1)", "update_in_place_and_set_density_image_sptr(D2)",
-                                        "update_in_place_and_set_density_image_for_scatter_points_sptr(S1)", "update_in_place_and_set_density_image_for_scatter_points_sptr(S2)" };
-static const int NOPS = 16, NOPS_IP = 22, OP_SETUP = 14, OP_COMPUTE = 15, OP_IP = 16;
-static bool is_setter(int op) { return op < OP_SETUP || op >= OP_IP; }
-static bool is_in_place(int op) { return op >= OP_IP; }
+                                        "update_in_place_and_set_density_image_for_scatter_points_sptr(S1)", "update_in_place_and_set_density_image_for_scatter_points_sptr(S2)",
+                                        // request-order worlds only: the protected per-bin function for every bin of the fixed bin set, in this order
+                                        "scatter_estimate_per_bin(forward)", "scatter_estimate_per_bin(reverse)", "scatter_estimate_per_bin(interleaved)" };
+static const int NOPS = 16, NOPS_IP = 22, OP_SETUP = 14, OP_COMPUTE = 15, OP_IP = 16, OP_REQ = 22, NOPS_ALL = 25;
+static bool is_setter(int op) { return op < OP_SETUP || (op >= OP_IP && op < OP_REQ); }
+static bool is_in_place(int op) { return op >= OP_IP && op < OP_REQ; }
+static bool is_request(int op) { return op >= OP_REQ; }
 static std::string kind_of(int op) { std::string n = OPNAME[op]; return n.substr(0, n.find('(')); }
 static std::string hist_names(const std::vector<int>& h) { std::string s; for (int o : h) s += std::string(OPNAME[o]) + "; "; return s; }
 
@@ -431,7 +465,39 @@ static Verdict run_history(const World& w, int phase, const std::vector<int>& h,
     last = o; has_last = true;
     return true;
   };
+  // scatter_estimate(bin) for the bins of the fixed bin set in the given order; every value == that bin of the fresh object's process_data() output
+  auto do_requests = [&](int order) -> bool {
+    if (!valid || cache_shape_hazard(*s))
+      { // the per-bin function has a debug-only "need to call set_up() first" check: not asked without a valid set-up
+        if (ctx) ctx->count("per_bin_request_ops_skipped_set_up_not_valid");
+        return true;
+      }
+    const Out& ref = fresh.get(c);
+    const std::vector<Bin> bins = bins_in_read_order(*s->get_template_proj_data_info_sptr());
+    if (ref.status != 0 || ref.v.size() != bins.size()) { if (ctx) ctx->count("per_bin_request_ops_skipped_no_fresh_reference"); return true; }
+    double mx = 0; for (float x : ref.v) mx = std::max(mx, (double)std::fabs(x));
+    if (ctx) ctx->count("per_bin_request_ops_in_histories");
+    for (size_t k : requested_bins(bins.size(), order))
+      {
+        double x = 0; std::string what;
+        if (small::throws([&] { x = static_cast<PerBinSim&>(*s).estimate_for_bin(bins[k]); }, &what))
+          {
+            fail("history_independence", "via=scatter_estimate_per_bin;outcome=error", "scatter_estimate(" + small::bin_str(bins[k]) + ") (bins asked in " + ORDER_NAME[order] + " order) after a valid set_up threw: " + what.substr(0, 200) + "; configuration " + c.str());
+            return false;
+          }
+        const double y = ref.v[k], d = std::fabs(x - y), tol = 1e-5 * std::max(std::fabs(x), std::fabs(y)) + 1e-7 * mx;
+        if (ctx) { ctx->count("per_bin_values_compared_with_fresh"); if (y != 0) ctx->count("per_bin_values_compared_with_fresh_nonzero"); }
+        if (std::isnan(x) != std::isnan(y) || d > tol)
+          {
+            fail("history_independence", "via=scatter_estimate_per_bin",
+                 "scatter_estimate(" + small::bin_str(bins[k]) + ") = " + vmc::str(x) + " (bins asked in " + ORDER_NAME[order] + " order) but a freshly configured simulation with configuration " + c.str() + " gives " + vmc::str(y) + " (max |fresh| " + vmc::str(mx) + ")");
+            return false;
+          }
+      }
+    return true;
+  };
   if (phase == 1) { if (!do_setup() || !do_compute()) { V.detail += ";at=initial_state"; return V; } }
+  if (phase == 2) { if (!do_setup() || !do_requests(1)) { V.detail += ";at=initial_state"; return V; } }
   for (size_t i = 0; i < h.size(); ++i)
     {
       const int op = h[i];
@@ -453,6 +519,7 @@ static Verdict run_history(const World& w, int phase, const std::vector<int>& h,
         case 12: case 13: threw = small::throws([&] { s->set_use_cache(op == 13); }, &what); c.cache = op - 12; valid = false; break; // like every setter: afterwards error() or the correct result
         case OP_SETUP: if (!do_setup()) return V; break;
         case OP_COMPUTE: if (!do_compute()) return V; break;
+        case 22: case 23: case 24: if (!do_requests(op - OP_REQ)) return V; break;
         }
       if (is_setter(op))
         {
@@ -496,7 +563,10 @@ static void run_H(vmc::Ctx& ctx, const World& w, int phase, int depth, uint64_t&
     std::string kinds; std::set<std::string> seen;
     for (int o : hmin) if (is_setter(o) && seen.insert(kind_of(o)).second) kinds += (kinds.empty() ? "" : "+") + kind_of(o);
     if (kinds.empty()) kinds = "none";
-    return "clause=" + v.clause + (v.detail.empty() ? "" : ";" + v.detail) + ";setters=" + kinds + ";cache=" + vmc::str(v.cache_at_failure);
+    std::string orders = phase == 2 ? "reverse(start)" : ""; // phase 2: the object was asked per bin in reverse order before the history starts
+    for (int o = OP_REQ; o < NOPS_ALL; ++o) if (std::find(hmin.begin(), hmin.end(), o) != hmin.end()) orders += (orders.empty() ? "" : "+") + std::string(ORDER_NAME[o - OP_REQ]);
+    return "clause=" + v.clause + (v.detail.empty() ? "" : ";" + v.detail) + ";setters=" + kinds + ";cache=" + vmc::str(v.cache_at_failure)
+           + (orders.empty() ? "" : ";bins_asked_per_bin_in_order=" + orders);
   };
   // returns (key, case, msg) for a failing history: attributes it to a minimal failing sub-history
   std::function<void(const std::vector<int>&, const Verdict&)> report = [&](const std::vector<int>& h, const Verdict& v) {
@@ -507,7 +577,7 @@ static void run_H(vmc::Ctx& ctx, const World& w, int phase, int depth, uint64_t&
         std::vector<int> g(h.begin(), h.begin() + v.at + 1);
         int last_setup = -1;
         for (int i = 0; i < v.at; ++i) if (g[i] == OP_SETUP) last_setup = i;
-        if (last_setup >= 0 || phase == 1)
+        if (last_setup >= 0 || phase >= 1)
           {
             std::vector<int> g2;
             for (int i = 0; i <= v.at; ++i) if (i <= last_setup || !is_setter(g[i])) g2.push_back(g[i]);
@@ -538,10 +608,11 @@ static void run_H(vmc::Ctx& ctx, const World& w, int phase, int depth, uint64_t&
     Verdict vmin = v;
     const std::vector<int> hmin = minimise(w, phase, h, v.clause, fresh, vmin);
     Culprit cu; cu.clause = v.clause; cu.setters = setters_of(hmin); cu.key = make_key(vmin, hmin);
-    if (std::find_if(hmin.begin(), hmin.end(), is_in_place) != hmin.end() && vmin.cache_at_failure == 1)
-      { // a minimal history with an in-place update that fails with the cache enabled: does the same history give the correct results once the
+    if ((std::find_if(hmin.begin(), hmin.end(), is_in_place) != hmin.end() || std::find_if(hmin.begin(), hmin.end(), is_request) != hmin.end() || phase == 2) && vmin.cache_at_failure == 1)
+      { // a minimal history with an in-place update (or with per-bin requests) that fails with the cache enabled: does the same history give the correct results once the
         // cache has been disabled (clause "the same with the line-integral cache enabled or disabled" broken as well) ?
         std::vector<int> g; g.push_back(12);
+        if (std::find_if(hmin.begin(), hmin.end(), is_request) != hmin.end() || phase == 2) g.push_back(OP_SETUP); // per-bin requests are only made while the set-up is valid
         for (int o : hmin) if (o != 12 && o != 13) g.push_back(o);
         const Verdict vc = run_history(w, phase, g, fresh, nullptr);
         cu.key += vc.bad() ? ";same_history_with_cache_disabled=wrong_too" : ";same_history_with_cache_disabled=correct"; // correct: clause cache_independence is broken too
@@ -564,7 +635,7 @@ static void run_H(vmc::Ctx& ctx, const World& w, int phase, int depth, uint64_t&
   if (replay)
     {
       auto m = vmc::kv(ctx.replay);
-      if (m["part"] != "H" || atoi(m["g"].c_str()) != w.g || atoi(m["zoom"].c_str()) != w.zoom || atoi(m["tv"].c_str()) != w.tv || atoi(m["s0"].c_str()) != w.S0 || atoi(m["ip"].c_str()) != w.ip || atoi(m["phase"].c_str()) != phase) return;
+      if (m["part"] != "H" || atoi(m["g"].c_str()) != w.g || atoi(m["zoom"].c_str()) != w.zoom || atoi(m["tv"].c_str()) != w.tv || atoi(m["s0"].c_str()) != w.S0 || atoi(m["ip"].c_str()) != w.ip || atoi(m["ord"].c_str()) != w.ord || atoi(m["phase"].c_str()) != phase) return;
       const std::vector<int> h = vmc::ints(m["h"]);
       fprintf(stderr, "replaying %s history: %s\n", wname.c_str(), hist_names(h).c_str());
       ctx.current(wname, wname + ";h=" + vmc::join(h));
@@ -574,8 +645,13 @@ static void run_H(vmc::Ctx& ctx, const World& w, int phase, int depth, uint64_t&
       return;
     }
   std::vector<int> alpha; // the alphabet of this world: operation codes as in OPNAME (histories and case strings hold operation codes)
-  for (int op = 0; op < (w.ip ? NOPS_IP : NOPS); ++op)
-    if (!(without_template_and_exam_info_ops && op >= 6 && op <= 9)) alpha.push_back(op);
+  for (int op = 0; op < NOPS_ALL; ++op)
+    {
+      if (is_in_place(op) && !w.ip) continue;
+      if (is_request(op) && !w.ord) continue;
+      if (w.ord && (op == 6 || op == 7)) continue; // request-order worlds: one template (the bin set is the same throughout)
+      if (!(without_template_and_exam_info_ops && op >= 6 && op <= 9)) alpha.push_back(op);
+    }
   const int nops = (int)alpha.size();
   for (int first : alpha)
     {
@@ -604,7 +680,7 @@ static void run_H(vmc::Ctx& ctx, const World& w, int phase, int depth, uint64_t&
       ctx.count("transitions", r.transitions + 1);
       ctx.count("traces_validated_against_impl", r.executions);
       if (!r.complete) ctx.exhaustive = false;
-      else ctx.maxi("depth_completed_" + std::string("g") + vmc::str(w.g) + "zoom" + vmc::str(w.zoom) + "tv" + vmc::str(w.tv) + "s0" + (w.S0 < 0 ? std::string("auto") : std::string("S1")) + (w.ip ? "inplace" : "") + "phase" + vmc::str(phase), depth);
+      else ctx.maxi("depth_completed_" + std::string("g") + vmc::str(w.g) + "zoom" + vmc::str(w.zoom) + "tv" + vmc::str(w.tv) + "s0" + (w.S0 < 0 ? std::string("auto") : std::string("S1")) + (w.ip ? "inplace" : "") + (w.ord ? "order" : "") + "phase" + vmc::str(phase), depth);
     }
   ctx.count("fresh_configurations_computed", fresh.computed);
   ctx.maxi("alphabet_size", nops);
@@ -692,6 +768,27 @@ static void run_E(vmc::Ctx& ctx, const World& w, const ECase& e)
       run(upd, cache, &reused[cache]);
       if (reused[cache]) reused_prev[cache] = compute(*reused[cache]);
     }
+  // two more long-lived objects (cache off / on) with an activity image object of their own, treated in the same way, that are additionally asked per bin
+  // (scatter_estimate(bin) over the fixed bin set) in an order that changes from superposition to superposition, before and after process_data()
+  shared_ptr<Vox> upd_ord = grid(NZ, HALF, VZ, VXY);
+  std::unique_ptr<SingleScatterSimulation> reused_ord[2];
+  for (int cache = 0; cache < 2; ++cache) run(upd_ord, cache, &reused_ord[cache]); // set_up + process_data: detectors numbered in the order of process_data
+  const std::vector<Bin> ebins = bins_in_read_order(*w.T[e.T]);
+  // asks the bins of the bin set in this order; returns "" or the first difference to `ref` (output of a fresh object)
+  auto ask_per_bin = [&](SingleScatterSimulation& s, int order, const Out& ref) -> std::string {
+    if (ref.status != 0 || ref.v.size() != ebins.size()) return "";
+    double mx = 0; for (float x : ref.v) mx = std::max(mx, (double)std::fabs(x));
+    for (size_t k : requested_bins(ebins.size(), order))
+      {
+        double x = 0; std::string what;
+        if (small::throws([&] { x = static_cast<PerBinSim&>(s).estimate_for_bin(ebins[k]); }, &what)) return "scatter_estimate(" + small::bin_str(ebins[k]) + ") threw: " + what.substr(0, 160);
+        const double y = ref.v[k], tol = 1e-5 * std::max(std::fabs(x), std::fabs(y)) + 1e-7 * mx;
+        ctx.count("per_bin_values_compared_with_fresh"); if (y != 0) ctx.count("per_bin_values_compared_with_fresh_nonzero");
+        if (std::isnan(x) != std::isnan(y) || std::fabs(x - y) > tol)
+          return "scatter_estimate(" + small::bin_str(ebins[k]) + ") = " + vmc::str(x) + " (bins asked in " + ORDER_NAME[order] + " order) vs " + vmc::str(y) + " (max |fresh| " + vmc::str(mx) + ")";
+      }
+    return "";
+  };
   for (auto& a : acts)
     {
       std::unique_ptr<SingleScatterSimulation> s_on, s_off;
@@ -723,6 +820,37 @@ static void run_E(vmc::Ctx& ctx, const World& w, const ECase& e)
           if (o.status == 0 && !differ(o, reused_prev[cache]).empty())
             { ctx.count("in_place_activity_updates_that_changed_the_output"); ctx.nontrivial(kase + ";reused;cache=" + vmc::str(cache) + ";act=" + a.name); }
           reused_prev[cache] = o;
+        }
+      // ---- the long-lived objects that are also asked per bin: order (i mod 3) before process_data(), order (i+1 mod 3) after it
+      std::copy(a.im->begin_all(), a.im->end_all(), upd_ord->begin_all());
+      for (int cache = 1; cache >= 0; --cache)
+        {
+          if (!reused_ord[cache]) continue;
+          const int i = int(&a - &acts[0]);
+          const Out& ref = cache ? on : off;
+          std::string dr, where;
+          Out o;
+          try
+            {
+              reused_ord[cache]->set_activity_image_sptr(upd_ord);
+              reused_ord[cache]->set_up();
+              dr = ask_per_bin(*reused_ord[cache], i % 3, ref); where = "per-bin requests before process_data()";
+              if (dr.empty())
+                {
+                  o = compute(*reused_ord[cache]);
+                  dr = differ(o, ref); where = std::string("process_data() after per-bin requests in ") + ORDER_NAME[i % 3] + " order";
+                }
+              if (dr.empty()) { dr = ask_per_bin(*reused_ord[cache], (i + 1) % 3, ref); where = "per-bin requests after process_data()"; }
+            }
+          catch (std::exception& ex) { dr = std::string("error: ") + ex.what(); where = "set_activity_image_sptr/set_up"; }
+          ctx.count("computes_E");
+          ctx.count("re_used_objects_asked_per_bin_compared_with_fresh");
+          if (!dr.empty())
+            ctx.violation("clause=history_independence;via=scatter_estimate_per_bin_on_re_used_object;cache=" + vmc::str(cache) + cls, kase,
+                          "object re-used over the superpositions (activity image object overwritten in place by '" + a.name + "', same pointer set again, set_up) and asked per bin "
+                          "in an order changing from superposition to superposition vs freshly configured object: " + where + ": " + dr
+);
+          else if (o.status == 0) ctx.nontrivial(kase + ";reused_per_bin;cache=" + vmc::str(cache) + ";act=" + a.name);
         }
       // linearity against the basis (reference sum in double)
       const std::vector<double> x = small::flat(*a.im);
@@ -798,7 +926,10 @@ int main(int argc, char** argv)
              "hash of all private members that influence later results + last output; every compute compared with a freshly configured object. "
              "In-place worlds: the images given to the simulation are caller-owned objects and the alphabet also has 'overwrite the voxel values of that object in place and call the "
              "setter again with the same shared_ptr' for the activity, attenuation and scatter-point image (state additionally: which objects the simulation was given / holds); "
-             "E also re-uses one object per cache setting over all superpositions with its activity image object overwritten in place and set again (non-trivial = the update changed the output)";
+             "E also re-uses one object per cache setting over all superpositions with its activity image object overwritten in place and set again (non-trivial = the update changed the output). "
+             "Request order: 2 request-order worlds (start: set up + process_data, or set up + asked per bin in reverse order) whose alphabet has scatter_estimate(bin) over a fixed set of ~10 bins "
+             "in forward, reverse and interleaved order (each value == the fresh object's bin; state includes the lazily numbered detection points and the caches indexed by them); "
+             "E re-uses two more objects (cache on/off) per configuration that are asked per bin in a changing order before and after process_data()";
   ctx.assume("history vs fresh and cache on vs off: every bin within 1e-5 relative (+1e-7 of the largest bin)");
   ctx.assume("estimate(A,B) vs estimate(B,A): 1e-5 relative; pairs of detectors at the same transaxial position (different rings) are skipped: STIR's normalisation is 1/cos(90 deg) for them");
   ctx.assume("linearity: |out(x) - sum_j x_j out(e_j)| <= 100*eps_float*sum_j|x_j out(e_j)| per bin (float line integrals of <= 15 terms, reference sum in double)");
@@ -807,6 +938,7 @@ int main(int argc, char** argv)
   ctx.assume("set_density_image_sptr() discards an explicit scatter-point image (as the code documents): the configuration then says 'derived from the attenuation image at set_up'");
   ctx.assume("compute without set_up after a setter: error() or the correct result are both accepted (process_data() documents 'need to call set_up() first')");
   ctx.assume("an image object is modified in place only immediately before it is passed to its setter again (what a simulation shows between an in-place change and the setter call is not specified and not tested)");
+  ctx.assume("scatter_estimate(bin) (protected, per bin) is asked only while the set-up is valid (its 'need to call set_up() first' check is debug-only); per-bin value vs bin of the fresh object's process_data() output: 1e-5 relative (+1e-7 of the largest bin)");
   ctx.assume("randomly_place_scatter_points is off everywhere (rand()/srand() are interposed and must not be called)");
   const bool th = ctx.thorough();
   uint64_t unit = 0;
@@ -839,7 +971,7 @@ int main(int argc, char** argv)
     }
   // ---- part H
   {
-    struct HW { int g, zoom, tv, S0, phase, depth_quick, depth_thorough, ip; };
+    struct HW { int g, zoom, tv, S0, phase, depth_quick, depth_thorough, ip, ord; };
     // quick tier: the in-place world has 18 operations (no set_template_proj_data_info / set_exam_info; all 22 in the thorough tier)
     const HW hws[] = { { 0, 0, 0, 0, 1, 5, 6 },   // caches filled by a first compute
                        { 0, 0, 0, 0, 0, 5, 6 },   // configured, never set up
@@ -852,13 +984,16 @@ int main(int argc, char** argv)
                        { 0, 0, 0, 0, 1, 4, 5, 1 },   // caches filled by a first compute
                        { 0, 0, 0, -1, 1, 0, 5, 1 },  // derived scatter-point image
                        { 0, 0, 0, 0, 0, 0, 5, 1 },   // configured, never set up
-                       { 1, 0, 0, 0, 1, 0, 4, 1 } }; // larger scanner
+                       { 1, 0, 0, 0, 1, 0, 4, 1 },   // larger scanner
+                       // request-order worlds: 17 operations (the 16 above without the template setters + scatter_estimate per bin over the bin set in 3 orders)
+                       { 0, 0, 0, 0, 1, 4, 4, 0, 1 },   // set up and asked through process_data(): detectors numbered in its order, caches filled
+                       { 0, 0, 0, 0, 2, 4, 4, 0, 1 } }; // set up and asked per bin in reverse order: detectors numbered in that order, caches partly filled
     for (const HW& hw : hws)
       {
         const int depth = th ? hw.depth_thorough : hw.depth_quick;
         if (depth <= 0 && !ctx.replaying()) continue;
         World w = make_world(hw.g, hw.zoom, hw.tv);
-        w.S0 = hw.S0; w.ip = hw.ip;
+        w.S0 = hw.S0; w.ip = hw.ip; w.ord = hw.ord;
         run_H(ctx, w, hw.phase, depth, unit, hw.ip && !th);
         if (!ctx.replaying() && ctx.expired()) goto done;
       }
